@@ -124,7 +124,29 @@ func refLex(in []byte) refResult {
 			w := string(in[p:e])
 			up := strings.ToUpper(w)
 			if compoundKeywordStarts[up] {
-				return unknown("compound keyword start")
+				// word, whitespace, word: one token when the pair is a multi-word keyword
+				q := e
+				for q < len(in) && isWS(in[q]) {
+					q++
+				}
+				if q < len(in) && in[q] >= 0x80 {
+					return unknown("non-ascii")
+				}
+				if q < len(in) && isAlpha(in[q]) {
+					e2 := q + 1
+					for e2 < len(in) && isIdentC(in[e2]) {
+						e2++
+					}
+					if e2 < len(in) && in[e2] >= 0x80 {
+						return unknown("non-ascii")
+					}
+					pair := w + " " + string(in[q:e2])
+					if ctyp, ok := compoundKeywordTypes[strings.ToUpper(pair)]; ok {
+						r.toks = append(r.toks, refTok{typ: ctyp, val: pair, off: p, end: e2})
+						p = e2
+						continue
+					}
+				}
 			}
 			typ, ok := keywordTokenTypes[up]
 			if !ok {
